@@ -1,10 +1,14 @@
 mod adapter;
+mod alloc;
 mod replay;
 mod tables;
 mod units;
 
 use serde_json::{json, Value};
 use std::io::{BufRead, BufReader, Write};
+
+#[global_allocator]
+static GLOBAL: alloc::Counting = alloc::Counting;
 
 fn arg(args: &[String], name: &str) -> Option<String> {
     args.iter().position(|a| a == name).and_then(|i| args.get(i + 1).cloned())
@@ -104,6 +108,7 @@ fn cmd_replay(args: &[String]) -> i32 {
         let lines = lines.clone();
         let units = units.clone();
         let prop = prop.clone();
+        let tier = tier.clone();
         handles.push(std::thread::spawn(move || {
             let mut ctx = replay::Ctx::new(&prop);
             let lo = th * chunk;
@@ -120,6 +125,11 @@ fn cmd_replay(args: &[String]) -> i32 {
                 };
                 if samples.len() < 1 {
                     samples.push(v.clone());
+                }
+                if prop == "C14" {
+                    ctx.stats.behaviours += 1;
+                    replay::covariance(&mut ctx, &v, *no, &tier);
+                    continue;
                 }
                 for u in units.iter() {
                     if let Some(uu) = replay::unit_ok(&v, u) {
@@ -175,6 +185,9 @@ fn cmd_replay(args: &[String]) -> i32 {
         stats.ord_zero_slack += a.ord_zero_slack;
         stats.returns_checked += a.returns_checked;
         stats.size_checked += a.size_checked;
+        stats.heap_checked += a.heap_checked;
+        stats.wired_compared += a.wired_compared;
+        stats.max_heap_growth = stats.max_heap_growth.max(a.max_heap_growth);
         stats.panics += a.panics;
         stats.max_rel_err = stats.max_rel_err.max(a.max_rel_err);
         vio_total += c.vio_total;
@@ -284,8 +297,25 @@ fn cmd_streams(args: &[String]) -> i32 {
                     o
                 }).collect();
                 let reps = seg["reps"].as_u64().unwrap();
-                for _ in 0..reps {
-                    for op in pat.iter() {
+                let ramp = seg["ramp"].as_i64().unwrap_or(0);
+                for rep in 0..reps {
+                    let moved: Vec<Value>;
+                    let pat_now: &Vec<Value> = if ramp == 0 || rep == 0 {
+                        &pat
+                    } else {
+                        let d = ramp * rep as i64;
+                        moved = pat.iter().map(|o| {
+                            let mut o = o.clone();
+                            for k in ["x", "o", "h", "l", "c"] {
+                                if let Some(v) = o.get(k).and_then(|v| v.as_i64()) {
+                                    o[k] = json!(v + d);
+                                }
+                            }
+                            o
+                        }).collect();
+                        &moved
+                    };
+                    for op in pat_now.iter() {
                         t += 1;
                         let ob = expects.get(&t);
                         if let Some(o) = ob {
@@ -321,6 +351,9 @@ fn cmd_streams(args: &[String]) -> i32 {
         stats.skipped_ovf += a.skipped_ovf;
         stats.skipped_tie += a.skipped_tie;
         stats.panics += a.panics;
+        stats.size_checked += a.size_checked;
+        stats.heap_checked += a.heap_checked;
+        stats.max_heap_growth = stats.max_heap_growth.max(a.max_heap_growth);
         stats.max_rel_err = stats.max_rel_err.max(a.max_rel_err);
         vio_total += c.vio_total;
         violations.extend(c.violations);
